@@ -15,8 +15,9 @@ F = tsh.F
 
 class ForkInstalled:
     """with-block: code -> fork op (through the implementation's own add_soft_fork), restored afterwards"""
-    def __init__(self, code):
+    def __init__(self, code, aliases=()):
         self.code = code
+        self.aliases = list(aliases)
 
     def __enter__(self):
         code = self.code
@@ -36,7 +37,7 @@ class ForkInstalled:
                 if tsh._Capture.log is not None:
                     tsh._Capture.log.append('e%d' % code)
                 raise tsh.E.ScriptExecutionError('soft fork check failed')
-        tsh.T.add_soft_fork(code, 'OP_VERIFFORK', fork_op)
+        tsh.T.add_soft_fork(code, 'OP_VERIFFORK', fork_op, list(self.aliases))
         return self
 
     def __exit__(self, *a):
@@ -126,6 +127,56 @@ def fork_task(task):
     return dict(n=sum(stats[k] for k in ('agree', 'differ', 'skip-unmodelled/fuel', 'skip-exntext', 'skip-recursion/timeout')),
                 stats=dict(stats), outcomes=dict(outcomes), disagreements=dis, violations=viol, samples=samples,
                 distinct=len(digests), oracle_calls=model.oracle_calls)
+
+
+CONTEXTS = [('', ''), ('OP_TRUE', ''), ('OP_PUSH1 x05', ''), ('OP_PUSH2 x05', ''), ('PUSH x05', ''), ('OP_PUSH0 x05', ''),
+            ('OP_PUSH1 d1 x05', ''), ('PUSH s"ab"', 'OP_TRUE'), ('OP_SWAP d1 d2', ''), ('@= k 1', ''), ('@k', ''),
+            ('OP_TRUE IF {', '}'), ('OP_TRUE IF { PUSH1 x05', '} ELSE { OP_FALSE }'), ('OP_TRUE LOOP {', 'OP_FALSE }'),
+            ('DEF 0 {', '} CALL d0'), ('TRY { OP_PUSH1 x05', '} EXCEPT { OP_TRUE }'), ('OP_TRUE IF', 'END_IF'),
+            ('OP_TRUE IF ( PUSH1 x05', ') { OP_TRUE }')]
+
+
+def compile_level(seed, exhaustive):
+    """'both VMs compile the script to identical bytes, and the op is reachable by its name and aliases': a NOPn written
+    after every kind of statement / inside every kind of block compiles on the old VM to the bytes the fork name (and its
+    alias) compiles to on the upgraded VM, namely the surrounding code with the two bytes (code, count) in that place."""
+    vmstream._init()
+    P = tsh.P
+    rng = random.Random(seed)
+    codes = [c for c in range(256) if c not in F.opcodes]
+    if not exhaustive:
+        codes = sorted(set([codes[0], codes[-1], 200] + rng.sample(codes, 6)))
+    pop1 = F.opcodes_inverse['OP_POP1'][0]
+    viol, n = [], 0
+    for code in codes:
+        for cnt in (0, 1, 2, 0x7b, 127, 128, 255):
+            for pre, post in CONTEXTS:
+                n += 1
+                marker = P.compile_script('%s OP_POP1 x7b %s' % (pre, post))
+                at = marker.find(bytes([pop1, 0x7b]))
+                if at < 0 or marker.count(bytes([pop1, 0x7b])) != 1:
+                    continue
+                want = marker[:at] + bytes([code, cnt]) + marker[at + 2:]
+                srcs = [('old VM, NOP%d' % code, 'NOP%d x%02x' % (code, cnt), False),
+                        ('old VM, nop%d' % code, 'nop%d x%02x' % (code, cnt), False),
+                        ('upgraded VM, fork name', 'OP_VERIFFORK x%02x' % cnt, True),
+                        ('upgraded VM, alias', 'VFK x%02x' % cnt, True)]
+                for what, frag, up in srcs:
+                    src = '%s %s %s' % (pre, frag, post)
+                    try:
+                        if up:
+                            with ForkInstalled(code, aliases=['VFK']):
+                                got = P.compile_script(src)
+                        else:
+                            got = P.compile_script(src)
+                        err = None
+                    except BaseException as e:
+                        got, err = None, '%s: %s' % (type(e).__name__, str(e)[:80])
+                    if got != want and len(viol) < 6:
+                        viol.append(dict(what='%s: source %r compiles to %s, the bytes with (code %d, count %d) in that place are %s'
+                                         % (what, src, got.hex() if got is not None else err, code, cnt, want.hex()),
+                                         case=dict(source=src, fork_code=code)))
+    return viol, n
 
 
 def run_fork(seed, total, nproc, chunk=1500):
